@@ -734,6 +734,13 @@ func (se *SpecEnv) callSpec(c *ast.CallExpr) Value {
 		return se.fr.v.ringIsZero(targ(0))
 	case "inv":
 		return se.fr.v.ringInv(targ(0))
+	case "msym": // msym(name, T): the symbolic multiplier module.<name>.<T> of a fixed-power map of the module type T
+		id0, ok0 := c.Args[0].(*ast.Ident)
+		id1, ok1 := c.Args[1].(*ast.Ident)
+		if !ok0 || !ok1 {
+			unsup("msym(<name>, <type>)")
+		}
+		return F.Var("module."+id0.Name+"."+id1.Name, SInt)
 	case "mlambda": // mlambda(T): the integer by which the endomorphism phi acts on the elements of the module type T
 		id, ok := c.Args[0].(*ast.Ident)
 		if !ok {
